@@ -308,6 +308,11 @@ def _ast_obligations(ctx):
     ctx.add(core.decided('C17/Batch._async_run/every-job-of-the-batch-is-scheduled', 'for j in self._jobs' in texts and pyast.unparse(fn.body[idx('for j in self._jobs')].body[0]) == 'schedule_job(j)' and 'assert len(seen) == len(self._jobs)' in texts, ''))
 
 
+def native_witness(ctx):
+    script = open(os.path.join(os.path.dirname(__file__), 'native', 'c17_replay.py')).read()
+    return core.run_native(script, {'seed': ctx.seed, 'rounds': 60}, timeout=400)
+
+
 def build(ctx):
     eng = pyvc.Engine(ctx, numbering())
     eng.run()
